@@ -16,6 +16,19 @@ Theorem C02_plurality_iff : forall (use_style : bool) (con : contest_id) (cs : l
 Proof. exact plurality_iff. Qed.
 Print Assumptions C02_plurality_iff.
 
+(* the family Assertion.make_all_assertions builds for a whole plurality contest: one assertion per (reported winner,
+   other candidate) pair, nothing missing and nothing else (the regenerated reading of make_all_assertions is proved
+   equal to all_plurality_pairs in coq/gen/GenProofs_assorter_skeletons.v) *)
+Theorem C02_make_all_plurality_iff : forall (use_style : bool) (con : contest_id) (cs : list card) (cands W : list cand),
+  (forall w l, In (w, l) (all_plurality_pairs cands W) ->
+               xlt (Fin (1 # 2)) (mean use_style con (assort_pl con w l) cs) = true)
+  <-> (forall w l, In w W -> In l cands -> ~ In l W -> (votes con w cs > votes con l cs)%Z).
+Proof. exact make_all_plurality_iff. Qed.
+Print Assumptions C02_make_all_plurality_iff.
+Example C02_make_all_plurality_family :
+  all_plurality_pairs [1; 2; 3; 4; 2]%Z [4; 2]%Z = [(4, 1); (4, 3); (2, 1); (2, 3)]%Z.
+Proof. vm_compute. reflexivity. Qed.
+
 (* super-majority with required share f > 0: valid = exactly one truthy mark among the listed candidates *)
 Theorem C02_supermajority_iff : forall (use_style : bool) (con : contest_id) (f : Q) (w : cand) (cands : list cand)
                                        (cs : list card),
